@@ -25,7 +25,7 @@ EXTENDS Integers, Sequences, FiniteSets, TLC
 
 Creds  == {"plain", "nocert", "selfsigned", "foreignca", "expired", "wrongname", "intermediate", "ok",
            "namecase", "nameprefix", "namesuffix", "namesan", "notyet"}
-Faults == {"none", "abort", "stall", "garbage"}
+Faults == {"none", "abort", "stall", "garbage", "flood"}      \* flood: hundreds of silent connections at once, then gone
 
 ChainsToCA(cred) == cred \in {"wrongname", "intermediate", "ok", "namecase", "nameprefix", "namesuffix", "namesan"}   \* and is valid now
 LeafHasName(cred) == cred \in {"ok", "selfsigned", "foreignca", "expired", "notyet"}
@@ -35,10 +35,11 @@ Admitted(cred, fault, rule) == fault = "none" /\ ChainsToCA(cred) /\ (rule => Le
 
 \* Observed outcome of one client: handshake completed, number of handler calls, PING answered (after AUTH if a password is set)
 ClientOK(c, cfg) ==
-  IF Admitted(c.cred, c.fault, cfg.rule)
-  THEN c.hs /\ c.calls >= 1 /\ c.served                 \* a legitimate client is served
-  ELSE c.calls = 0 /\ ~c.served                         \* nobody else has a command executed
-       /\ (c.fault # "stall" => c.disconnected)         \* ... and is disconnected
+  /\ c.preauth_calls = 0                                  \* with a password configured nothing is executed before AUTH (C08)
+  /\ IF Admitted(c.cred, c.fault, cfg.rule)
+     THEN c.hs /\ c.calls >= 1 /\ c.served              \* a legitimate client is served
+     ELSE /\ c.calls = 0 /\ ~c.served                    \* nobody else has a command executed
+          /\ (c.fault # "stall" => c.disconnected)       \* ... and is disconnected
 
 \* after ANY client, both listeners still serve well-behaved clients
 ContainedOK(p) == p.tlsok /\ p.plainok
